@@ -46,8 +46,22 @@ def readRounds : Nat → List SrvEv → Nat
   | _, .intr :: _ => 1
   | need, .data b :: rest => if need ≤ b.length then 1 else 1 + readRounds (need - b.length) rest
 
-/-- `_whawty_recv_response` followed by the `strncmp("OK", response, 2)` test. -/
-def recvVerdict (evs : List SrvEv) : Nat :=
+/-- What select() reports next: empty chunks are no events. -/
+def nextEv : List SrvEv → Option SrvEv
+  | [] => none
+  | .data [] :: r => nextEv r
+  | e :: _ => some e
+
+/-- The announced length is zero and the wait for the (empty) body is interrupted by a signal:
+    `_whawty_read_data(sock, buf, 0)` still calls select() once; interrupted, it returns -1 ≠ 0. -/
+def zeroLenInterrupted (evs : List SrvEv) : Bool :=
+  match readN 2 evs [] with
+  | .full [hi, lo] rest => min (be16val hi lo) 256 = 0 && nextEv rest = some .intr
+  | _ => false
+
+/-- `_whawty_recv_response` followed by the `strncmp("OK", response, 2)` test, for every script
+    except the one singled out by `zeroLenInterrupted`. -/
+def recvVerdictCore (evs : List SrvEv) : Nat :=
   match readN 2 evs [] with
   | .full [hi, lo] rest =>
     let l := min (be16val hi lo) 256
@@ -56,6 +70,10 @@ def recvVerdict (evs : List SrvEv) : Nat :=
       | .full resp _ => if resp.take 2 = Sasl.okB then PAM_SUCCESS else PAM_AUTH_ERR
       | _ => PAM_AUTHINFO_UNAVAIL
   | _ => PAM_AUTHINFO_UNAVAIL
+
+/-- `_whawty_recv_response` followed by the `strncmp("OK", response, 2)` test. -/
+def recvVerdict (evs : List SrvEv) : Nat :=
+  if zeroLenInterrupted evs then PAM_AUTHINFO_UNAVAIL else recvVerdictCore evs
 
 /-- A C string stops at the first NUL. -/
 def cstr (b : Bytes) : Bytes := b.takeWhile (· ≠ 0)
